@@ -7,7 +7,8 @@
        fault plan (c06_every_exit).  Per builder body and for the self-test this is the generated / path-sensitive `wpx` proof
        (spec/OdrThms.v, keeps_self_test); every other operation by a syntax-directed traversal of its generated body.
    (b) with C16 (belief = device at every exit, props/C16.v) the DEVICE satisfies the rules after every call of every history
-       of API calls under every fault plan, starting from a freshly constructed driver (c06_device_history).
+       of API calls under every fault plan, starting from a freshly constructed driver (c06_device_history; over I2C at HAL
+       level: c06_device_history_i2c).
    (c) decision: the builders that can change a register of the rule table (accelerometer, interrupts, generic 1/2, activity change)
        accept a request exactly when the requested state satisfies the rules; a rejection leaves the shadow unchanged, sends nothing
        and carries the error kind whose rules are violated (spec/OdrDecide.v: decide_<Builder>; c06_reject_iff_* below);
@@ -24,7 +25,7 @@ Open Scope N_scope.
 Theorem keeps_self_test : keeps BMA400_perform_self_test.
 Proof.
   intros d H0. wx_start d H0. cbv delta [BMA400_perform_self_test]; cbv beta.
-  wx. all: wx_exit.
+  timeout 600 wx. all: timeout 600 wx_exit.
 Qed.
 
 (* ---- every other operation: traversal of the generated body ---- *)
@@ -97,6 +98,21 @@ Proof.
   unfold OdrValid. rewrite (coherent_ov _ _ Hc). exact Ho.
 Qed.
 
+(* the same over I2C at HAL level (props/C16.v: c16_i2c_*; the shadow part holds for every transport) *)
+Theorem c06_device_history_i2c : forall cs s dev, forallb (fun c => api_only (fst c)) cs = true ->
+  OdrValid (wchip (history_i2c dev (init_world dev s) cs)).
+Proof.
+  intros cs s dev H.
+  assert (G : forall cs w, forallb (fun c => api_only (fst c)) cs = true -> CohI dev w /\ ov (shadow w) = true ->
+              CohI dev (history_i2c dev w cs) /\ ov (shadow (history_i2c dev w cs)) = true).
+  { induction cs0 as [|c cs0 IH]; intros w Hc Hw; [exact Hw|].
+    cbn [forallb] in Hc. apply andb_prop in Hc. destruct Hc as [H1 H2]. cbn [history_i2c fold_left].
+    apply IH; [exact H2|]. destruct c as [op fl]. destruct Hw as [Hi Ho]. split; [apply c16_i2c_every_call; assumption|].
+    unfold call_i2c. cbn [fst snd]. apply c06_every_exit; assumption. }
+  destruct (G cs (init_world dev s) H (conj (c16_i2c_initial s dev) (proj2 (c06_initial s dev)))) as [[Hc _] Ho].
+  unfold OdrValid. rewrite (coherent_ov _ _ Hc). exact Ho.
+Qed.
+
 (* (c) the decision, read as the property states it: rejected exactly when the requested state would break a rule *)
 Theorem c06_reject_iff_accel : forall d r0 r1 r2 j, wfb d = true -> r0 < 256 -> r1 < 256 -> r2 < 256 -> ov d = true ->
   let req := mk_AccConfig r0 r1 r2 in
@@ -116,6 +132,43 @@ Theorem c06_reject_iff_interrupts : forall d r0 r1 j, wfb d = true -> r0 < 256 -
 Proof.
   intros d r0 r1 j Hwf R0 R1 Ho req. pose proof (decide_IntConfigBuilder d r0 r1 j Hwf R0 R1 Ho) as D. fold req in D.
   destruct (semx (IntConfigBuilder_write req) d (ghost_of d) j) as [a d1 g1 j1|e d1 g1 j1|]; [ | | contradiction].
+  - destruct D as [_ D]. split; [intros [e [d' [g' [j' E]]]]; discriminate | intro F; congruence].
+  - destruct D as [_ [_ [D _]]]. split; [intros _; exact D | intros _; eauto].
+Qed.
+
+Theorem c06_reject_iff_gen1 : forall d r0 r1 r2 r3 r4 r5 r6 r7 r8 r9 r10 j, wfb d = true ->
+  r0 < 256 -> r1 < 256 -> r2 < 256 -> r3 < 256 -> r4 < 256 -> r5 < 256 -> r6 < 256 -> r7 < 256 -> r8 < 256 -> r9 < 256 -> r10 < 256 -> ov d = true ->
+  let req := mk_Gen1IntConfig r0 r1 r2 r3 r4 r5 r6 r7 r8 r9 r10 in
+  (exists e d' g' j', semx (GenIntConfigBuilder_write (GenIntConfig_Gen1Int req)) d (ghost_of d) j = XFailed e d' g' j')
+  <-> ov (set_Config_gen1int_config req d) = false.
+Proof.
+  intros d r0 r1 r2 r3 r4 r5 r6 r7 r8 r9 r10 j Hwf R0 R1 R2 R3 R4 R5 R6 R7 R8 R9 R10 Ho req.
+  pose proof (decide_GenIntConfigBuilder_Gen1Int d r0 r1 r2 r3 r4 r5 r6 r7 r8 r9 r10 j Hwf R0 R1 R2 R3 R4 R5 R6 R7 R8 R9 R10 Ho) as D. fold req in D.
+  destruct (semx (GenIntConfigBuilder_write (GenIntConfig_Gen1Int req)) d (ghost_of d) j) as [a d1 g1 j1|e d1 g1 j1|]; [ | | contradiction].
+  - destruct D as [_ D]. split; [intros [e [d' [g' [j' E]]]]; discriminate | intro F; congruence].
+  - destruct D as [_ [_ [D _]]]. split; [intros _; exact D | intros _; eauto].
+Qed.
+
+Theorem c06_reject_iff_gen2 : forall d r0 r1 r2 r3 r4 r5 r6 r7 r8 r9 r10 j, wfb d = true ->
+  r0 < 256 -> r1 < 256 -> r2 < 256 -> r3 < 256 -> r4 < 256 -> r5 < 256 -> r6 < 256 -> r7 < 256 -> r8 < 256 -> r9 < 256 -> r10 < 256 -> ov d = true ->
+  let req := mk_Gen2IntConfig r0 r1 r2 r3 r4 r5 r6 r7 r8 r9 r10 in
+  (exists e d' g' j', semx (GenIntConfigBuilder_write (GenIntConfig_Gen2Int req)) d (ghost_of d) j = XFailed e d' g' j')
+  <-> ov (set_Config_gen2int_config req d) = false.
+Proof.
+  intros d r0 r1 r2 r3 r4 r5 r6 r7 r8 r9 r10 j Hwf R0 R1 R2 R3 R4 R5 R6 R7 R8 R9 R10 Ho req.
+  pose proof (decide_GenIntConfigBuilder_Gen2Int d r0 r1 r2 r3 r4 r5 r6 r7 r8 r9 r10 j Hwf R0 R1 R2 R3 R4 R5 R6 R7 R8 R9 R10 Ho) as D. fold req in D.
+  destruct (semx (GenIntConfigBuilder_write (GenIntConfig_Gen2Int req)) d (ghost_of d) j) as [a d1 g1 j1|e d1 g1 j1|]; [ | | contradiction].
+  - destruct D as [_ D]. split; [intros [e [d' [g' [j' E]]]]; discriminate | intro F; congruence].
+  - destruct D as [_ [_ [D _]]]. split; [intros _; exact D | intros _; eauto].
+Qed.
+
+Theorem c06_reject_iff_actchg : forall d r0 r1 j, wfb d = true -> r0 < 256 -> r1 < 256 -> ov d = true ->
+  let req := mk_ActChgConfig r0 r1 in
+  (exists e d' g' j', semx (ActChgConfigBuilder_write req) d (ghost_of d) j = XFailed e d' g' j')
+  <-> ov (set_Config_actchg_config req d) = false.
+Proof.
+  intros d r0 r1 j Hwf R0 R1 Ho req. pose proof (decide_ActChgConfigBuilder d r0 r1 j Hwf R0 R1 Ho) as D. fold req in D.
+  destruct (semx (ActChgConfigBuilder_write req) d (ghost_of d) j) as [a d1 g1 j1|e d1 g1 j1|]; [ | | contradiction].
   - destruct D as [_ D]. split; [intros [e [d' [g' [j' E]]]]; discriminate | intro F; congruence].
   - destruct D as [_ [_ [D _]]]. split; [intros _; exact D | intros _; eauto].
 Qed.
